@@ -43,6 +43,11 @@ def settings():
         "custom": [(lambda n: getattr(n, "local_name", "") != "a",)],
         "nested": [(is_tag_node,), (not_(is_comment_node),)],
         "never": [(lambda n: False,)],
+        # an emptied setting BELOW another one: the library's own `altered_default_filters()` frames are the same empty
+        # tuple object as the caller's (seeded C08-7: the exit removing a frame by identity)
+        "none-then-comment": [(), (is_comment_node,)],
+        "none-then-tag": [(), (is_tag_node,)],
+        "none-none-text": [(), (), (is_text_node,)],
     }
 
 
@@ -320,8 +325,8 @@ def check_interleavings(run: Run, stream, xml):
 def check(run: Run, lean: dict) -> int:
     n = run.budget(6, 120)
     run.extra["rule"] = (
-        "4 seed documents + generated ones (6 quick / 40 thorough) x 8 ambient settings (default, none, tag, text, comment, "
-        "custom predicate, nested, hide-everything) x {serialize plain/pretty/wrapped, str(document), xpath, css_select, "
+        "4 seed documents + generated ones (6 quick / 40 thorough) x 11 ambient settings (default, none, tag, text, comment, "
+        "custom predicate, nested, hide-everything, and three with an emptied setting below another one) x {serialize plain/pretty/wrapped, str(document), xpath, css_select, "
         "location_path, depth, ancestors, document, `in`, clone, detach, detach(retain), merge_text_nodes, reduce_whitespace} "
         "compared across settings with stack/tree/identity checks; plus random schedules over 12 iterator kinds "
         "(create/next/drop/close/unrelated call) with the stack inspected after every step"
